@@ -15,6 +15,7 @@ import tempfile
 import time
 
 HERE = os.path.dirname(os.path.dirname(os.path.abspath(__file__)))
+OUT = os.environ.get("VH_OUT") or HERE
 
 
 def load_module(pid):
@@ -195,14 +196,14 @@ def finish(pid, tier, seed, mod, results, problems, wall, replay_path):
             if missing:
                 inconclusive.append("coverage class %s missing %s" % (key, missing))
 
-    os.makedirs(os.path.join(HERE, "replays"), exist_ok=True)
-    os.makedirs(os.path.join(HERE, "evidence"), exist_ok=True)
+    os.makedirs(os.path.join(OUT, "replays"), exist_ok=True)
+    os.makedirs(os.path.join(OUT, "evidence"), exist_ok=True)
     replay_files = {}
     n = 0
     if not replay_path:
         import glob
 
-        for old in glob.glob(os.path.join(HERE, "replays", "%s-%d-*.json" % (pid, seed))):
+        for old in glob.glob(os.path.join(OUT, "replays", "%s-%d-*.json" % (pid, seed))):
             os.remove(old)
     for v in m["violations"]:
         mech = v["mechanism"]
@@ -210,7 +211,7 @@ def finish(pid, tier, seed, mod, results, problems, wall, replay_path):
             continue
         path = os.path.join("replays", "%s-%d-%d.json" % (pid, seed, n))
         n += 1
-        with open(os.path.join(HERE, path), "w") as f:
+        with open(os.path.join(OUT, path), "w") as f:
             json.dump(
                 {
                     "property": pid,
@@ -264,7 +265,7 @@ def finish(pid, tier, seed, mod, results, problems, wall, replay_path):
         }
         if getattr(mod, "EXHAUSTIVE_PART", None):
             ev["coverage"]["exhaustive_part"] = mod.EXHAUSTIVE_PART
-        with open(os.path.join(HERE, "evidence", pid + ".json"), "w") as f:
+        with open(os.path.join(OUT, "evidence", pid + ".json"), "w") as f:
             json.dump(ev, f, indent=1, sort_keys=False)
 
     print("[%s %s seed=%d] monitors=%d evaluations, %d distinct non-trivial cases, wall %.1fs" % (
